@@ -391,16 +391,17 @@ func c09Harness(sc c09Scen) vsched.Harness {
 					// word they may be either set, but they must be one of the sets the muxer was given
 					okP := false
 					for p := 0; p < 2; p++ {
-						ref := newTrack(t)
+						ref := newTrackCfg(cfg, t)
+						ps := cfg.pset(t.Kind, p)
 						switch c := ref.Codec.(type) {
 						case *codecs.H264:
-							c.SPS, c.PPS = h264ParamsOf(t.Kind)[p].sps, h264ParamsOf(t.Kind)[p].pps
+							c.SPS, c.PPS = ps.sps, ps.pps
 						case *codecs.H265:
-							c.VPS, c.SPS, c.PPS = h265Params[p].vps, h265Params[p].sps, h265Params[p].pps
+							c.VPS, c.SPS, c.PPS = ps.vps, ps.sps, ps.pps
 						case *codecs.AV1:
-							c.SequenceHeader = av1Params[p].seqHdr
+							c.SequenceHeader = ps.seqHdr
 						case *codecs.VP9:
-							c.Width, c.Height = vp9Params[p].width, vp9Params[p].height
+							c.Width, c.Height, c.Profile, c.BitDepth, c.ChromaSubsampling, c.ColorRange = ps.width, ps.height, uint8(ps.profile), uint8(ps.bitDepth), uint8(ps.chroma), ps.colorRange
 						}
 						if c09ParamsEqual(tr, ref) && (st.sc.Word == "params" || p == 0) {
 							okP = true
@@ -597,7 +598,8 @@ func c09ParamsEqual(got *Track, want *Track) bool {
 		return ok && bytes.Equal(av1StripSizes([][]byte{g.SequenceHeader})[0], w.SequenceHeader)
 	case *codecs.VP9:
 		g, ok := got.Codec.(*codecs.VP9)
-		return ok && g.Width == w.Width && g.Height == w.Height && g.Profile == w.Profile && g.BitDepth == w.BitDepth
+		return ok && g.Width == w.Width && g.Height == w.Height && g.Profile == w.Profile && g.BitDepth == w.BitDepth &&
+			g.ChromaSubsampling == w.ChromaSubsampling && g.ColorRange == w.ColorRange
 	case *codecs.MPEG4Audio:
 		g, ok := got.Codec.(*codecs.MPEG4Audio)
 		return ok && g.Config.SampleRate == w.Config.SampleRate && g.Config.ChannelCount == w.Config.ChannelCount && g.Config.Type == w.Config.Type
@@ -626,6 +628,7 @@ func c09Scens(tier string) []c09Scen {
 		mcfg("mpegts", false, 3, "h264b", "aac44"),
 		mcfg("fmp4", false, 3, "h264b"),
 		mcfg("ll", false, 7, "aac44", "h264b"),
+		func() muxCfg { c := mcfg("fmp4", false, 3, "vp9"); c.ParamDelta = "width+fullrange"; return c }(),
 	}
 	for i := range cfgs {
 		if cfgs[i].Variant == "ll" {
